@@ -749,6 +749,122 @@ func runC18ClientClose(t *testing.T, rng *rand.Rand, rec *sim.Rec, tier string, 
 	rec.SetSample(map[string]any{"kind": "client-close-during-rtx", "transactions": nTr})
 }
 
+// runC18TCPAllocClose (real time): an RFC 6062 allocation of the real client is closed by the
+// application while permitted peers keep connecting to its relayed address - every such
+// connection makes the server send a ConnectionAttempt indication that the client's read loop
+// hands to the allocation. Close against that delivery, a blocked Accept against Close; then the
+// client allocates again. The process survives, Accept returns, nothing stays blocked.
+func runC18TCPAllocClose(t *testing.T, rng *rand.Rand, rec *sim.Rec, tier string, caseNo int) {
+	cfg := sim.Config{
+		Realm: "verif.test", Users: map[string]string{"alice": "pw-a"},
+		TCPListeners: []*net.TCPAddr{{IP: sim.ServerIP4, Port: 3478}},
+	}
+	w, err := sim.NewWorld(cfg, rec, rng, false)
+	if err != nil {
+		t.Fatal(err)
+	}
+	defer w.Shutdown()
+	w.Net.LogSends = false
+	ctrl, err := w.Net.DialTCP(net.IPv4(10, 1, 1, 1).To4(), 0, w.ServerTCP[0].TCPAddr())
+	if err != nil {
+		t.Fatal(err)
+	}
+	logs := sim.NewLogSink()
+	cl, err := turn.NewClient(&turn.ClientConfig{
+		STUNServerAddr: "10.0.0.1:3478", TURNServerAddr: "10.0.0.1:3478", Conn: turn.NewSTUNConn(ctrl),
+		Username: "alice", Password: "pw-a", Realm: "verif.test",
+		Net: &simnet.VNet{N: w.Net, HostIP4: net.IPv4(10, 1, 1, 1).To4()}, LoggerFactory: logs,
+	})
+	if err != nil {
+		t.Fatal(err)
+	}
+	defer cl.Close()
+	if err := cl.Listen(); err != nil {
+		t.Fatal(err)
+	}
+	peerIP := net.IPv4(10, 2, 0, 1).To4()
+	rounds := 6
+	attempts := 0
+	for r := 0; r < rounds && len(rec.Violations()) == 0; r++ {
+		alloc, err := cl.AllocateTCP()
+		if err != nil {
+			rec.Violate("stress-wedged", "tcp-alloc-close/allocate", "AllocateTCP failed in round %d: %v", r, err)
+
+			return
+		}
+		ra, _ := net.ResolveTCPAddr("tcp", alloc.Addr().String())
+		if err := cl.CreatePermission(&net.TCPAddr{IP: peerIP, Port: 1}); err != nil {
+			rec.Violate("stress-wedged", "tcp-alloc-close/permission", "CreatePermission failed in round %d: %v", r, err)
+
+			return
+		}
+		stop := make(chan struct{})
+		var wg sync.WaitGroup
+		var mu sync.Mutex
+		for g := 0; g < 4; g++ {
+			wg.Add(1)
+			go func() {
+				defer wg.Done()
+				for i := 0; ; i++ {
+					select {
+					case <-stop:
+						return
+					default:
+					}
+					c, err := w.Net.DialTCP(peerIP, 0, ra)
+					if err == nil {
+						mu.Lock()
+						attempts++
+						mu.Unlock()
+						time.Sleep(200 * time.Microsecond)
+						_ = c.Close()
+					} else {
+						time.Sleep(200 * time.Microsecond)
+					}
+				}
+			}()
+		}
+		accepted := make(chan error, 1)
+		go func() {
+			for {
+				c, err := alloc.AcceptTCP()
+				if err != nil {
+					accepted <- err
+
+					return
+				}
+				_ = c.Close()
+			}
+		}()
+		time.Sleep(time.Duration(1+rng.Intn(8)) * time.Millisecond)
+		_ = alloc.Close()
+		time.Sleep(3 * time.Millisecond)
+		close(stop)
+		wg.Wait()
+		select {
+		case <-accepted:
+		case <-time.After(15 * time.Second):
+			// (an Accept still blocked after Close is what the unchanged client does when no attempt
+			// is pending - the doc comment promises otherwise, no property here does)
+			rec.Ev("accept-still-blocked-after-close")
+		}
+	}
+	// the client is still in working order
+	done := make(chan error, 1)
+	go func() { _, err := cl.SendBindingRequest(); done <- err }()
+	select {
+	case err := <-done:
+		if err != nil {
+			rec.Violate("stress-wedged", "tcp-alloc-close/follow-up", "Binding transaction after %d rounds of TCPAllocation.Close against inbound connection attempts failed: %v", rounds, err)
+		}
+	case <-time.After(15 * time.Second):
+		rec.Violate("stress-wedged", "tcp-alloc-close/follow-up", "Binding transaction after the rounds did not return")
+	}
+	rec.EvN("inbound-connections-during-tcp-allocation-close", attempts)
+	rec.FP("tcp-allocation-close-vs-connection-attempts")
+	rec.SetSample(map[string]any{"kind": "tcp-allocation-close-vs-attempts", "rounds": rounds, "inbound_connections": attempts})
+}
+
 func newClientOn(conn net.PacketConn, n *simnet.Net, logs *sim.LogSink) (*turn.Client, error) {
 	return turn.NewClient(&turn.ClientConfig{
 		STUNServerAddr: "10.0.0.1:3478", TURNServerAddr: "10.0.0.1:3478", Conn: conn, Username: "alice", Password: "pw-a", Realm: "verif.test",
@@ -773,7 +889,11 @@ func init() {
 			case 7:
 				inBubble(t, func(t *testing.T) { runC18MassClose(t, rng, rec, tier, caseNo) })
 			case 8:
-				runC18ClientClose(t, rng, rec, tier, caseNo)
+				if (caseNo/9)%2 == 1 {
+					runC18TCPAllocClose(t, rng, rec, tier, caseNo)
+				} else {
+					runC18ClientClose(t, rng, rec, tier, caseNo)
+				}
 			case 0:
 				runC18Stress(t, rng, rec, tier, caseNo)
 			case 1:
